@@ -49,7 +49,9 @@ CLAIMED = {
          "controller forces TLC-emitted schedules (deterministic, reproducible); each execution's history is checked by TLC "
          "(ConcurrencyTrace) for linearizability against the tag model and the connection table, plus reply routing, deadlock and exception freedom.  "
          "Concurrent ROUTED sessions ([UCMM] Route to a second simulator process over one shared route connection): free-running on real sockets over a slow link, and "
-         "forced schedules whose scheduling points include taking / releasing / sending on the shared route connection; histories judged by TLC (RouteTrace).",
+         "forced schedules whose scheduling points include taking / releasing / sending on the shared route connection; histories judged by TLC (RouteTrace).  "
+         "spec/RouteConn.tla models that connection (acquire / send / answer / release / establish; TLC: OwnReply, WireOwned, AllServed; the send-before-acquire deviation must violate OwnReply) "
+         "and every forced schedule's acq/send/rcv/rel event log is replayed against it by TLC (RouteConnTrace).",
          "5/C09", "forced schedules preempt at the instrumented points (parser locks, the middle of every shared-parser run, tag storage accesses, the tag loop of logix.setup); free-running threads (switch interval 1 us, warm and cold start) sample everything else",
          "TLA+ atomic-effect model + TLC interleavings; TLC-emitted schedules forced on real threads; histories checked for linearizability by TLC"),
  "C08": ("fault_enumeration",
